@@ -1,6 +1,9 @@
 (** C05, part 4: one PushMove refines one [g_play] step of the specification game, and the result reported
     by the board is the one the specification's draw conditions prescribe ([push_refines] on the list view
-    [aboard] of BoardHeap1; lifted to heap boards in GameLemmas6). *)
+    [aboard] of BoardHeap1; lifted to heap boards in GameLemmas6).
+    The clock of the board is the specification's clock capped at [max_int] ([clk_rel]); the result reported
+    is the specification's for every clock: below saturation the recount is exact, at saturation the fifty-move
+    rule overwrites it on both sides. *)
 From Coq Require Import NArith ZArith List Bool Lia ZifyBool ZifyNat ZifyN.
 From Morlock.Model Require Import Bits Attacks Move Position Abs Zobrist Board.
 From Morlock.Spec Require Import Chess Game.
@@ -98,6 +101,9 @@ Definition result_after (now : list draw_reason) (old : result) : result :=
   fold_left (fun _ d => mkResult Draw (reason_of d)) now old.
 
 Lemma result_after_nil old : result_after [] old = old. Proof. reflexivity. Qed.
+(** only the last condition matters: whatever precedes [d] is overwritten *)
+Lemma result_after_last l1 d l2 old old' : result_after (l1 ++ d :: l2) old = result_after (d :: l2) old'.
+Proof. unfold result_after. rewrite fold_left_app. reflexivity. Qed.
 Lemma result_after_draw now old : now <> [] -> outcome (result_after now old) = Draw.
 Proof.
   intros H. destruct (exists_last H) as [l [d ->]]. unfold result_after. rewrite fold_left_app. reflexivity.
@@ -118,11 +124,18 @@ Definition AInv (a : aboard) : Prop :=
   hist z (a_data a) (a_turn a) /\
   forall k, rep_get (a_reps a) k = Z.of_nat (count_hash k (a_data a)).
 
-(** refinement relation between (the list view of) a board and a specification game *)
+(** refinement relation between (the list view of) a board and a specification game.  The clock of the
+    board is the (unbounded) clock of the specification capped at [max_int] ([clk_rel], GameLemmas2): the
+    Go counter saturates at math.MaxInt. *)
 Definition ARel (a : aboard) (g : gstate) : Prop :=
   states (a_data a) (a_turn a) = (g_pos g, g_turn g) :: g_past g /\
-  Z.of_N (a_noprogress a) = g_clock g /\
+  clk_rel (a_noprogress a) (g_clock g) /\
   a_moves a = g_fullmove g.
+
+Lemma ARel_clock a g : ARel a g -> Z.of_N (a_noprogress a) = Z.min (g_clock g) (Z.of_N max_int).
+Proof. intros (_ & H & _). exact H. Qed.
+Lemma ARel_clock_exact a g : ARel a g -> (g_clock g <= Z.of_N max_int)%Z -> Z.of_N (a_noprogress a) = g_clock g.
+Proof. intros (_ & H & _). now apply clk_rel_exact. Qed.
 
 Theorem apush_step a g m a1 : AInv a -> ARel a g -> In m (pseudo_legal_moves (a_position a) (a_turn a)) ->
   apush z a m = (a1, true) ->
@@ -130,8 +143,9 @@ Theorem apush_step a g m a1 : AInv a -> ARel a g -> In m (pseudo_legal_moves (a_
   a_result a1 = result_after (g_now (g_play g (abs_move m))) (a_result a) /\
   (* 3. rep_map_counts / 5. ipc_counts, for the node just pushed *)
   rep_get (a_reps a1) (a_hash a1) = Z.of_nat (count_hash (a_hash a1) (a_data a1)) /\
-  ipc_list true (a_position a1) (a_hash a1) (a_data a) (a_turn a) (a_turn a1) 1 (a_noprogress a1) 1 =
-    occurrences (g_pos (g_play g (abs_move m)), g_turn (g_play g (abs_move m))) (g_past (g_play g (abs_move m))).
+  (unsat (a_noprogress a1) (length (a_data a1)) ->
+   ipc_list true (a_position a1) (a_hash a1) (a_data a) (a_turn a) (a_turn a1) 1 (a_noprogress a1) 1 =
+    occurrences (g_pos (g_play g (abs_move m)), g_turn (g_play g (abs_move m))) (g_past (g_play g (abs_move m)))).
 Proof.
   intros [Hh Hreps] [Hst [Hclk Hfm]] Hin Hpush.
   destruct a as [reps cw cb ply moves t res data nexts].
@@ -156,8 +170,8 @@ Proof.
   cbn [states epos fst] in Hst. inversion Hst as [[Egp Egt Egpast]]. clear Hst. subst gp gt gpast. set (gpast := states d (opponent t)) in *.
   set (sm := abs_move m) in *. set (sp := abs_pos p) in *. set (c := color_of t) in *.
   assert (Ec' : color_of (opponent t) = other c) by (apply color_of_vcol; exact Ht).
-  assert (Hclk' : Z.of_N nnp = (if is_capture_move sp sm || is_pawn_move sp sm then 0 else gc + 1)%Z).
-  { unfold nnp. rewrite (clock_spec_Z p t m n Hwf Ht Hin). fold sp sm. now rewrite Hclk. }
+  assert (Hclk' : clk_rel nnp (if is_capture_move sp sm || is_pawn_move sp sm then 0 else gc + 1)%Z).
+  { unfold nnp. exact (clock_spec_Z p t m n gc Hwf Ht Hin Hclk). }
   (* the new history and its states *)
   assert (Hst' : states ((next, nh, nnp) :: (p, zhash z p t, n) :: d) (opponent t) =
                  (apply_move sp c sm, other c) :: (sp, c) :: gpast).
@@ -167,21 +181,23 @@ Proof.
                    Inv (epos e) /\ ehash e = zhash z (epos e) (turn_at t j)).
   { intros j e Hj. destruct (hash_consistent_list z _ _ Hh j e Hj) as [_ [A B]].
     split; [exact (wf_inv _ _ (wf_b_WF _ _ A))|exact B]. }
-  assert (Hwin : forall j e, nth_error ((p, zhash z p t, n) :: d) j = Some e -> nnp < 1 + N.of_nat j ->
+  assert (Hwin : unsat nnp (length ((next, nh, nnp) :: (p, zhash z p t, n) :: d)) ->
+             forall j e, nth_error ((p, zhash z p t, n) :: d) j = Some e -> nnp < 1 + N.of_nat j ->
              same_state (abs_pos next, color_of (opponent t)) (abs_pos (epos e), color_of (turn_at t j)) = false).
-  { intros j e Hj Hlim.
+  { intros Hu j e Hj Hlim.
     destruct (same_state _ _) eqn:Es; [|reflexivity]. exfalso.
     apply same_state_eq in Es. assert (Ea := f_equal fst Es). cbn [fst] in Ea.
-    refine (window_complete_list z W W_step _ _ Hh' (next, nh, nnp) _ (S j) e eq_refl Hj _ (eq_sym Ea)).
+    refine (window_complete_list z W W_step _ _ Hh' (next, nh, nnp) _ (S j) e eq_refl Hj Hu _ (eq_sym Ea)).
     cbn [eclk snd]. lia. }
-  pose proof (ipc_counts_list z next (opponent t) nnp (vcol_opponent t) HI' _ t 1 1%Z Ht Hall Hwin) as Hipc.
+  pose proof (fun Hu => ipc_counts_list z next (opponent t) nnp (vcol_opponent t) HI' _ t 1 1%Z Ht Hall (Hwin Hu)) as Hipc.
   fold nh in Hipc. cbn [states epos fst] in Hipc. fold gpast in Hipc.
   pose proof (same_le_hash z next (opponent t) (vcol_opponent t) HI' _ t Ht Hall) as Hle.
   fold nh in Hle. cbn [states epos fst] in Hle. fold gpast in Hle.
   rewrite Href, Ec' in Hipc, Hle. fold sp c in Hipc, Hle.
   set (occ := occurrences (apply_move sp c sm, other c) ((sp, c) :: gpast)).
-  assert (Hocc : ipc_list true next nh ((p, zhash z p t, n) :: d) t (opponent t) 1 nnp 1 = occ).
-  { rewrite Hipc. unfold occ, occurrences. reflexivity. }
+  set (actual := ipc_list true next nh ((p, zhash z p t, n) :: d) t (opponent t) 1 nnp 1) in *.
+  assert (Hocc : unsat nnp (length ((next, nh, nnp) :: (p, zhash z p t, n) :: d)) -> actual = occ).
+  { intros Hu. rewrite (Hipc Hu). unfold occ, occurrences. reflexivity. }
   assert (Hrep' : rep_get reps' nh = Z.of_nat (count_hash nh ((next, nh, nnp) :: (p, zhash z p t, n) :: d))).
   { unfold reps'. rewrite rep_get_set, N.eqb_refl, Hreps. unfold count_hash. cbn [filter ehash fst snd].
     rewrite N.eqb_refl. cbn [length]. lia. }
@@ -189,7 +205,7 @@ Proof.
   { rewrite Hrep'. unfold occ, occurrences, count_hash in *. cbn [filter ehash fst snd] in *.
     rewrite N.eqb_refl. cbn [length]. lia. }
   (* assemble *)
-  rewrite (opp_opp t Ht) in Hpush. rewrite Hocc in Hpush.
+  rewrite (opp_opp t Ht) in Hpush. fold actual in Hpush.
   inversion Hpush as [Ea1]. clear Hpush. unfold AInv, ARel.
   cbn [a_data a_turn a_reps a_moves a_result a_position a_hash a_noprogress hd fst snd].
   unfold a_position, a_hash, a_noprogress. cbn [a_data hd fst snd].
@@ -207,18 +223,28 @@ Proof.
     split; [exact Hst'|]. split; [exact Hclk'|].
     rewrite Hfm. unfold c, color_of, opponent, White, Black. destruct Ht as [->| ->]; reflexivity.
   - (* result *) unfold g_play. cbn [g_pos g_turn g_past g_clock g_fullmove g_now]. fold sp c sm. fold occ.
-    rewrite <- Hclk'.
     pose proof (insuff_trigger p t m next Hwf Ht Hin Hmv) as Hins. unfold trigger in Hins. fold sp c sm in Hins.
     set (INS := (occupied (brd sp) (sto sm) || s_is_underpromotion sm) && insufficient (brd (apply_move sp c sm))) in *.
-    assert (Hnp : (noprogressPlyLimit <=? nnp) = (100 <=? Z.of_N nnp)%Z).
-    { unfold noprogressPlyLimit. destruct (N.leb_spec 100 nnp); destruct (Z.leb_spec 100 (Z.of_N nnp)); try reflexivity; lia. }
-    rewrite Hnp.
+    pose proof (clk_rel_limit _ _ Hclk') as Hnp. rewrite Hnp.
     set (T := (mtype m =? Capture) || ((mtype m =? CapturePromotion) || (mtype m =? Promotion)) && ((mpromo m =? Bishop) || (mpromo m =? Knight))) in *.
-    destruct (Z.leb_spec 3 (rep_get reps' nh)) as [G3|G3];
-    destruct (Z.leb_spec 5 occ) as [O5|O5]; destruct (Z.leb_spec 3 occ) as [O3|O3]; try lia;
-    destruct (100 <=? Z.of_N nnp)%Z;
-    destruct T; cbn [andb] in Hins; try (rewrite Hins); try (rewrite <- Hins);
-    try (destruct (has_insufficient_material next)); reflexivity.
+    set (clock' := (if is_capture_move sp sm || is_pawn_move sp sm then 0 else gc + 1)%Z) in *.
+    destruct (N.ltb_spec nnp max_int) as [Hsat|Hsat].
+    + (* below saturation: the recount is exact *)
+      rewrite (Hocc (or_introl Hsat)).
+      destruct (Z.leb_spec 3 (rep_get reps' nh)) as [G3|G3];
+      destruct (Z.leb_spec 5 occ) as [O5|O5]; destruct (Z.leb_spec 3 occ) as [O3|O3]; try lia;
+      destruct (100 <=? clock')%Z;
+      destruct T; cbn [andb] in Hins; try (rewrite Hins); try (rewrite <- Hins);
+      try (destruct (has_insufficient_material next)); reflexivity.
+    + (* saturated clock: the fifty-move rule fires and overwrites whatever the recount said *)
+      assert (H100 : (100 <=? clock')%Z = true).
+      { rewrite <- Hnp. unfold noprogressPlyLimit. apply N.leb_le.
+        assert (M : 100 <= max_int) by (vm_compute; discriminate). lia. }
+      rewrite H100.
+      destruct (3 <=? rep_get reps' nh)%Z; destruct (5 <=? actual)%Z; destruct (3 <=? actual)%Z;
+      destruct (5 <=? occ)%Z; destruct (3 <=? occ)%Z;
+      destruct T; cbn [andb] in Hins; try (rewrite Hins); try (rewrite <- Hins);
+      try (destruct (has_insufficient_material next)); reflexivity.
   - (* rep_map_counts *) exact Hrep'.
   - (* ipc_counts *) unfold g_play. cbn [g_pos g_turn g_past]. fold sp c sm. exact Hocc.
 Qed.
